@@ -379,8 +379,9 @@ def rule_FX2(ctx, rep):
         if not lits:
             continue
         n += 1
+        # scaling by 2^f: `x <<= f`, `x[i] <<= f`, or an expression `<value> << f` (in a return, a comprehension, an assignment)
         shifts = [s for s in iter_nodes(fn.node) if (isinstance(s, ast.AugAssign) and isinstance(s.op, ast.LShift)) or
-                  (isinstance(s, ast.BinOp) and isinstance(s.op, ast.LShift) and isinstance(pm.get(id(s)), ast.Return))]
+                  (isinstance(s, ast.BinOp) and isinstance(s.op, ast.LShift) and const_int(s.left) is None)]
         shifts = [s for s in shifts if 'frac_length' in norm(s) or fnorm(s.value if isinstance(s, ast.AugAssign) else s.right) in ('f',)]
         if shifts:
             rep.ok('FX2', fn, lits[0][0], f'declared integral; result scaled by 2^f ({norm(shifts[-1])})')
